@@ -8,6 +8,7 @@
 -/
 import Jawk.Lemmas.Order
 import Jawk.Lemmas.BucketSort
+import Jawk.Lemmas.SortFns
 namespace Jawk.C07
 open Jawk SortSpec
 
@@ -77,6 +78,71 @@ theorem compare_fns_agree (a b : JV) :
     ((JV.cmp a b != .gt) = true ↔ JV.cmp b a ≠ .lt) := by
   rw [cmp_swap a b]
   cases JV.cmp a b <;> simp [Ordering.swap]
+
+
+/-! ### repeated `--sort-by`: lexicographic keys, the first given most significant
+
+`build` assembles the sorters so that the LAST given key sorts first (outermost stage) and the FIRST given
+key last (next to the limiter): `multiSort` is that chain on the list level. -/
+
+/-- two keys: a permutation, sorted by the first key in its direction, within every class of the first key
+sorted by the second key in ITS direction, and rows tied on both keys in arrival order -/
+theorem two_key_lex {α} (k1 k2 : α → JV) (d1 d2 : Bool) (l : List α) :
+    (sortDir JV.cmp k1 d1 (sortDir JV.cmp k2 d2 l)).Perm l ∧
+    SortedDir JV.cmp k1 d1 (sortDir JV.cmp k1 d1 (sortDir JV.cmp k2 d2 l)) ∧
+    (∀ k, SortedDir JV.cmp k2 d2
+      ((sortDir JV.cmp k1 d1 (sortDir JV.cmp k2 d2 l)).filter (fun x => JV.cmp (k1 x) k = .eq))) ∧
+    (∀ a b,
+      (sortDir JV.cmp k1 d1 (sortDir JV.cmp k2 d2 l)).filter
+          (fun x => JV.cmp (k1 x) a = .eq && JV.cmp (k2 x) b = .eq)
+        = l.filter (fun x => JV.cmp (k1 x) a = .eq && JV.cmp (k2 x) b = .eq)) :=
+  SortFns.two_key_lex cmp_total_preorder k1 k2 d1 d2 l
+
+/-- any number of keys with directions: the chain of stable sorts IS the stable sort under the lexicographic
+comparison of the key vector (first key most significant) -/
+theorem multi_key_lex {α} (ks : List ((α → JV) × Bool)) (l : List α) :
+    SortFns.multiSort JV.cmp ks l = sortDir (SortFns.lexCmp JV.cmp ks) id false l :=
+  SortFns.multiSort_eq_sortDir_lex cmp_total_preorder ks l
+
+theorem multi_key_sorted {α} (ks : List ((α → JV) × Bool)) (l : List α) :
+    (SortFns.multiSort JV.cmp ks l).Perm l ∧
+    (SortFns.multiSort JV.cmp ks l).Pairwise (fun a b => SortFns.lexCmp JV.cmp ks a b ≠ .gt) :=
+  ⟨SortFns.multiSort_perm cmp_total_preorder ks l, SortFns.multiSort_sorted cmp_total_preorder ks l⟩
+
+/-! ### the sort functions (`slice::sort_by`, assumed stable = `List.mergeSort`) are the same sort -/
+
+/-- `sort`: the stable sort of the specification, hence permutation, sorted, ties in arrival order -/
+theorem fn_sort (l : List JV) :
+    stableSortBy JV.cmp l = sortDir JV.cmp id false l ∧ (stableSortBy JV.cmp l).Perm l ∧
+    (stableSortBy JV.cmp l).Pairwise (fun a b => JV.cmp a b ≠ .gt) :=
+  ⟨SortFns.sort_eq_spec l, SortFns.sort_perm l, SortFns.sort_sorted l⟩
+
+theorem fn_sort_by_values (m : List (Str × JV)) :
+    stableSortBy (fun (x y : Str × JV) => JV.cmp x.2 y.2) m = sortDir JV.cmp (fun x : Str × JV => x.2) false m :=
+  SortFns.sort_by_values_eq_spec m
+
+theorem fn_sort_by_keys (m : List (Str × JV)) :
+    stableSortBy (fun (x y : Str × JV) => cmpStr x.1 y.1) m = sortDir cmpStr (fun x : Str × JV => x.1) false m :=
+  SortFns.sort_by_keys_eq_spec m
+
+/-- `sort_by` (and `sort_by_values_by`): by the evaluated key, a missing key first -/
+theorem fn_sort_by_key_order : TotalPreorderCmp cmpOpt := SortFns.cmpOpt_total_preorder
+
+/-- `sort_unique`: sorted, no two neighbours `==`, every input element kept or `==` to a kept one -/
+theorem fn_sort_unique (l : List JV) :
+    (SortFns.sortUnique l).Pairwise (fun a b => JV.cmp a b ≠ .gt) ∧
+    SortFns.AdjacentAll (fun a b => JV.beq a b = false) (SortFns.sortUnique l) ∧
+    (∀ x ∈ l, x ∈ SortFns.sortUnique l ∨ ∃ y ∈ SortFns.sortUnique l, JV.beq y x = true) :=
+  ⟨SortFns.sort_unique_sorted l, SortFns.sort_unique_adjacent l, SortFns.sort_unique_cover l⟩
+
+/-- the direction word is case-insensitive (ASC / DESC / nothing) -/
+theorem direction_case_insensitive (t : Str) :
+    directionOf (t.map Char.toUpper) = directionOf t ∧ directionOf (t.map Char.toLower) = directionOf t :=
+  ⟨SortFns.directionOf_map_toUpper t, SortFns.directionOf_map_toLower t⟩
+
+theorem direction_words :
+    directionOf [] = .ok false ∧ directionOf "asc".toList = .ok false ∧ directionOf "DESC".toList = .ok true ∧
+    directionOf "DeSc".toList = .ok true := ⟨rfl, rfl, rfl, rfl⟩
 
 /-! ### non-vacuity -/
 example : JV.cmp (.num (.pos 2)) (.num (.pos 10)) = .lt := by decide
